@@ -136,8 +136,11 @@ def handleCore (st : St) (l : Line) : Option (St × List String) := do
         let rs ← ((← l.get "rs").splitOn "|").mapM parseSubset
         let parts := rs.map (fun r => cfg.retrieveChunkSubset st.st c r)
         if parts.all Option.isSome then
-          pure (st, ["val " ++ "|".intercalate (parts.map (fun p => showElems (p.getD []))) ++ " same=true"])
+          let v := "val " ++ "|".intercalate (parts.map (fun p => showElems (p.getD [])))
+          -- (C07 runs the partial decoder without the implementation-side comparison)
+          pure (st, [v ++ " same=true", v])
         else pure (st, ["err"])
+      | "contents" => pure (st, [optVal (cfg.retrieveArraySubset st.st ⟨cfg.shape.map (fun _ => 0), cfg.shape⟩)])
       | "typed_chunk" => pure (st, [optVal (cfg.retrieveChunk st.st (← l.nl "c")), "untyped"])
       | "typed_subset" => pure (st, [optVal (cfg.retrieveArraySubset st.st (← parseSubset (← l.get "r"))), "untyped"])
       | "typed_chunk_subset" => pure (st, [optVal (cfg.retrieveChunkSubset st.st (← l.nl "c") (← parseSubset (← l.get "r"))), "untyped"])
